@@ -134,7 +134,18 @@ def handshake(src):
     answer_state = src.pick('remote_view_of_local', [0, 1, 2, 3, 4, 5, 99, 'fault'])
     differ = src.pick('strategy_difference', [None, 'auto-fencing', 'conciliation', 'starting', 'supvisors_failure',
                                               'missing', 'fault'])
-    stale = src.pick_flag('stale_result')
+    # a stale result: the peer is checked again (new CHECKING phase) after the first handshake has completed, or while
+    # one of its XML-RPCs is still blocked (the proxy thread is slow, the main thread goes on)
+    stale = src.pick('stale_result', [None, 'after', 'during-get_strategies', 'during-get_all_local_process_info'])
+    holder = {}
+
+    def slow(rpc):
+        if stale == 'during-' + rpc and 'status' in holder:
+            CLOCK[0].advance(1)
+            holder['status'].state = S.STOPPED
+            holder['status'].state = S.CHECKING
+            CLOCK[0].advance(1)
+            holder['rechecked'] = True
     mine = c.rpc_intf.get_strategies()
 
     class Remote:
@@ -147,6 +158,7 @@ def handshake(src):
 
             @staticmethod
             def get_strategies():
+                slow('get_strategies')
                 if differ == 'fault':
                     raise ConnectionRefusedError('down')
                 out = dict(mine)
@@ -166,6 +178,7 @@ def handshake(src):
 
             @staticmethod
             def get_all_local_process_info():
+                slow('get_all_local_process_info')
                 return []
 
         class supervisor:
@@ -174,28 +187,31 @@ def handshake(src):
                 cl.net.send(c.ident, c.ident, etype, data)
                 return True
     status = c.set_instance_state(peer, S.CHECKING)
+    holder['status'] = status
     proxy = c.rpc_handler.proxy_server.get_proxy(peer)
     proxy._proxy = Remote
     local_proxy = c.rpc_handler.proxy_server.get_proxy(c.ident)
     if stale:
-        # the peer is checked again later: the first result arrives after the second handshake has begun
         CLOCK[0].advance(1)
     from supvisors.internal_com.supervisorproxy import SupervisorProxyException
     try:
         proxy.check_instance()
     except SupervisorProxyException:
         proxy.handle_exception()
-    if stale:
+    if stale == 'after':
         CLOCK[0].advance(1)
         status.state = S.STOPPED
         status.state = S.CHECKING          # new handshake: checking_time is now later than the result
+        holder['rechecked'] = True
+    stale = stale if holder.get('rechecked') else None      # the slow XML-RPC may not be part of this handshake
     before = status.state.name
     cl.drain()
     after = status.state.name
     sig = f'{answer_state}:{differ}'
     if stale:
         src.reach('stale')
-        src.check('stale-handshake-result-changes-nothing', after in (before, 'FAILED'), sig=sig, after=after)
+        src.check('stale-handshake-result-changes-nothing', after in (before, 'FAILED'), sig=f'{sig}:{stale}',
+                  after=after)
     elif answer_state == 'fault' or differ == 'fault' and answer_state in (0, 1, 2, 3, 4):
         src.reach('unreachable')
         src.check('unreachable-peer-not-admitted', after in ('STOPPED', 'FAILED'), sig=sig, after=after)
